@@ -175,7 +175,16 @@ class World:
                          f'{where}: {c.name} {c.t.late[:20]!r}')
                 c.t.late = b''
             if c.t.closed and not c.lost_delivered:
-                self.drop(c)
+                # the server asked for the close; when the connection is
+                # seen lost is the network's business (a holder that released
+                # may linger: slow client, half-open socket)
+                if (getattr(self, 'lazy', False) and c.released
+                        and getattr(c, 'was_told_at_release', False)):
+                    if not getattr(c, 'lingering', False):
+                        c.lingering = True
+                        out.label('released-connection-lingers')
+                else:
+                    self.drop(c)
 
     def drop(self, c):
         if c.lost_delivered:
@@ -308,10 +317,15 @@ class World:
                 out.fail('release/lock-not-freed', f'{where}: {c.name}')
             if not c.was_told_at_release:
                 out.label('release-by-waiter')
+        elif kind == 'lazy':
+            self.lazy = True
         elif kind == 'drop':
             c = self.clients.get(op[1] % NCLIENT)
             if c is None or not c.alive:
                 return
+            if getattr(c, 'lingering', False) and any(
+                    o.told for o in self.all if o is not c):
+                out.label('lingering-connection-lost-while-another-holds')
             if c.told:
                 out.label('disconnect-hits-holder')
                 if (c.granted_at is not None
@@ -331,6 +345,12 @@ class World:
         '''holders release or die in turn; every live waiter must be granted
         within one poll period per remaining waiter'''
         k = 0
+        for c in list(self.all):
+            if getattr(c, 'lingering', False) and not c.lost_delivered:
+                self.do(['drop', c.idx], out)
+                if out.failures:
+                    return
+        self.lazy = False
         for _round in range(2 * NCLIENT + 4):
             waiters = [c for c in self.all if c.alive and not c.told
                        and not c.released]
@@ -658,6 +678,7 @@ _op = st.one_of(
         [0.25, 0.5, 0.9, 1.0, 1.1, 2.0, 3.0, 3.0, 4.0, 7.0])).map(list),
     st.tuples(st.just('rel'), _small).map(list),
     st.tuples(st.just('drop'), _small).map(list),
+    st.just(['lazy']),
 )
 _word = st.fixed_dictionaries({'ops': st.lists(_op, min_size=3, max_size=30)})
 _short = st.fixed_dictionaries({'ops': st.lists(_op, min_size=3, max_size=12)})
